@@ -334,6 +334,17 @@ gen_yescrypt (struct vh_setlist *L, int m, int thorough)
             vh_sl_add (L, m, params[pi].cost, buf);
           }
       }
+  /* (N, p) grid around the KDF's own N/p limit: N = 2^1..2^8, r = 1, p from the explicit field (have = 1).  quick: the band
+     N/4-1 .. N/3+1 where acceptance flips; thorough: every p in 2..49 (one-character encoding) */
+  for (int nl = 1; nl <= 8; nl++)
+    for (int pp = 2; pp <= 49; pp++)
+      {
+        int N = 1 << nl;
+        if (!thorough && !(pp >= N / 4 - 1 && pp <= N / 3 + 1))
+          continue;
+        snprintf (buf, sizeof buf, "%sj%c..%c$saltSALT", tag, A64[nl - 1], A64[pp - 2]);
+        vh_sl_add (L, m, 0, buf);
+      }
   vh_sl_add (L, m, 0, tag);
   snprintf (buf, sizeof buf, "%sj75", tag);
   vh_sl_add (L, m, 0, buf);
